@@ -379,8 +379,13 @@ def check(prop, tier, runs=None, workers=None, seed=None):
             if res.get("status") == "harness-error":
                 harness_errors.append(res)
             elif res.get("status") != "ok":
+                # a minimised plan is only meaningful for the clause it was
+                # minimised for (it need not be a plan the generator could
+                # produce, so the other clauses of the oracle do not apply)
+                want = json.load(open(path)).get("clause")
                 unknown = [v for v in res.get("violations", [])
-                           if not match_known(known, prop, v)]
+                           if v.get("clause") == want and
+                           not match_known(known, prop, v)]
                 if unknown:
                     reg_fail.append((path, fl, res, unknown))
     agg["probes"]["regression-plans-replayed"] = len(reg_files)
